@@ -1,13 +1,13 @@
 #!/bin/bash
-# usage: tools/try_seed.sh <patch.diff> <ID> [<ID>...]   — applies a seeded change to /repo, runs the baseline suite and
+# usage: tools/try_seed.sh <patch.diff> <ID> [<ID>...]   — applies a seeded change to $VERIF_REPO, runs the baseline suite and
 # the given checks (quick tier), and always reverts. Prints one summary line per check.
 set -u
 PATCH="$1"; shift
 cd /verif; . ./env.sh
-if ! git -C /repo diff --quiet; then echo "REPO DIRTY - abort"; exit 9; fi
-git -C /repo apply "$PATCH" || { echo "PATCH DOES NOT APPLY"; exit 8; }
-trap 'git -C /repo apply -R "$PATCH"; git -C /repo status --short | head -3; ./build.sh 0 >/dev/null 2>&1' EXIT
-if (cd /repo && go build ./... ) >/dev/null 2>&1; then echo "build: ok"; else echo "build: FAIL"; fi
+if ! git -C $VERIF_REPO diff --quiet; then echo "REPO DIRTY - abort"; exit 9; fi
+git -C $VERIF_REPO apply "$PATCH" || { echo "PATCH DOES NOT APPLY"; exit 8; }
+trap 'git -C $VERIF_REPO apply -R "$PATCH"; git -C $VERIF_REPO status --short | head -3; ./build.sh 0 >/dev/null 2>&1' EXIT
+if (cd $VERIF_REPO && go build ./... ) >/dev/null 2>&1; then echo "build: ok"; else echo "build: FAIL"; fi
 if ./baseline.sh > /tmp/seed-baseline.log 2>&1; then echo "baseline: pass"; else echo "baseline: FAIL"; grep -v '^ok' /tmp/seed-baseline.log | head -5; fi
 for id in "$@"; do
   out=$(./check $id 2>&1); rc=$?
